@@ -41,4 +41,3 @@ func H_c13_frame_port() {
 	}
 	symReach("end")
 }
-
